@@ -442,6 +442,74 @@ Proof.
     cbn [fst w_objs]. apply ext_by_put. reflexivity.
 Qed.
 
+Lemma edit_body_keeps : forall pn o,
+  keeps (fun t =>
+           let above := after_name pn (t_applied t) in
+           let '(t1, extra) := pop_patches (fun n => mem n above) t in
+           match extra with
+           | _ :: _ => TPanic
+           | [] => tbind (update_patch pn o t1) (push_patches above false)
+           end).
+Proof.
+  intros pn o objs t E. cbv zeta.
+  destruct (pop_patches _ t) as [t1 extra] eqn:PP. apply objs_pop_patches in PP.
+  destruct extra; [|exact I].
+  apply texts_tbind; [|apply push_patches_keeps]. apply update_patch_keeps. now rewrite PP.
+Qed.
+
+Lemma run_edit_ev : forall w l m msg, EV false w (fst (run_edit w l m msg)).
+Proof.
+  intros. unfold run_edit.
+  destruct (match l with Some o => _ | None => _ end) as [loc_l|]; [|apply EV_refl].
+  open_manual op Hop Hev.
+  destruct (negb _); [exact Hev|].
+  unfold rres_bind.
+  match goal with |- EV false _ (fst (match ?r with ROk _ => _ | RErr _ => _ | RPanic => _ end)) =>
+    destruct r as [pn| |]; [|exact Hev|exact Hev] end.
+  destruct (pm_get _ _) as [pc|]; [|exact Hev].
+  destruct (get _ _) as [old|]; [|exact Hev].
+  destruct (_ && _); [exact Hev|].
+  unfold put. cbv beta iota zeta.
+  apply transact_ev; [|apply edit_body_keeps]. cbn [op_world].
+  eapply EV_ext; [exact Hev| |reflexivity]. cbn [with_objs w_objs]. apply ext_by_put. reflexivity.
+Qed.
+
+Lemma log_extmods_first_ev : forall w op0 op,
+  EV false w (op_world op0) -> log_extmods_first op0 = Some op -> EV false w (op_world op).
+Proof.
+  intros w op0 op Hev0 Hl.
+  unfold log_extmods_first in Hl. destruct (Nat.eqb _ _); [now inversion Hl; subst|].
+  destruct (log_external_mods _ _) as [[w' s']|] eqn:L; [|discriminate].
+  inversion Hl; subst. cbn [op_world].
+  eapply EV_trans; [exact Hev0|eapply log_external_mods_ev; exact L].
+Qed.
+
+Lemma run_rebase_ev : forall w tg, EV false w (fst (run_rebase w tg)).
+Proof.
+  intros. unfold run_rebase. open_manual op Hop Hev.
+  destruct (resolve_gtarget _ _) as [target|]; [|exact Hev].
+  destruct (Nat.eqb _ _); [exact Hev|].
+  destruct (negb _); [exact Hev|].
+  destruct (dirty _); [exact Hev|].
+  match goal with
+  | |- EV false _ (fst (match ?T with pair _ _ => _ end)) =>
+      assert (H1 : EV false w (fst T)); [|destruct T as [w2 x]]
+  end.
+  { apply transact_ev; [exact Hev|]. intros objs t E. cbn [texts].
+    destruct (pop_patches _ t) as [t1 inc] eqn:PP. apply objs_pop_patches in PP. cbn [fst]. now rewrite PP. }
+  cbn [fst] in H1.
+  destruct x; try exact H1.
+  match goal with |- context [open_stack PRequire ?w3] =>
+    assert (H3 : EV false w w3) by (apply EV_same with (w1 := w2); [exact H1|reflexivity|reflexivity]);
+    destruct (open_stack PRequire w3) as [op3|] eqn:Hop3; [|exact H3] end.
+  assert (Hev3 : EV false w (op_world op3)).
+  { eapply EV_trans; [exact H3|]. eapply open_stack_ev; [exact Hop3|discriminate]. }
+  destruct (log_extmods_first op3) as [op4|] eqn:Hl; [|exact Hev3].
+  pose proof (log_extmods_first_ev _ _ _ Hev3 Hl) as Hev4.
+  destruct (negb _); [exact Hev4|].
+  apply transact_ev; [exact Hev4|apply push_patches_keeps].
+Qed.
+
 Lemma step_ev_noclear : forall lower_s w c, c <> CLogClear -> EV false w (fst (step lower_s w c)).
 Proof.
   intros lower_s w c NC. destruct c; cbn [step].
@@ -467,6 +535,8 @@ Proof.
   - apply run_reset_ev.
   - apply run_repair_ev.
   - congruence.
+  - apply run_edit_ev.
+  - apply run_rebase_ev.
   - destruct (open_stack PAllow w) as [op|] eqn:Hop; [|apply EV_refl].
     eapply open_stack_ev; [exact Hop|discriminate].
   - apply run_git_ev.
